@@ -2,6 +2,7 @@
 """sensitivity audit: apply each corpus mutant to a scratch copy of /repo and run the checks of the properties it names.
 A breaking mutant must produce VIOLATION (exit 1) for every expected property; a harmless one must stay exit 0."""
 import subprocess, os, sys, json, shutil, tempfile, re, concurrent.futures
+os.environ.setdefault("VERIF_CACHE", "/tmp/hannibal-vcache")  # memoize verifier runs by generated-file hash (corpus tools only)
 ROOT = os.path.dirname(os.path.dirname(os.path.abspath(__file__)))
 ONLY_PROP = None
 def run_one(patch):
